@@ -5,7 +5,7 @@
    is never a panic, and it does not depend on the decoder state (so the "objects of a block" that
    C06 and C09 speak of are a function of the block alone). *)
 From Coq Require Import ZArith List Bool.
-From Verif Require Import Framing.Model Framing.Valid C06.Proofs.
+From Verif Require Import Framing.Model Framing.Valid C06.Spec C06.Proofs C06.ProofsDamage C06.InBlock.
 From Verif Require Pbf.Tree Pbf.Model Pbf.ProofsNoPanic Pbf.ProofsIndep.
 Import ListNotations.
 
@@ -65,4 +65,29 @@ Proof.
   intros c fs avail H. apply scan_never_crashes.
   induction H as [|f r Hf _ IH]; [reflexivity|].
   cbn [forallb]. rewrite (from_tree_no_dpanic c f Hf), IH. reflexivity.
+Qed.
+
+(* ---- in-block damage: the oracle value DErr is derived from the block's tree (C06/InBlock.v) ---- *)
+Lemma decode_tree_damaged : forall c st m, in_block_damage c m -> decode_tree c st m = DErr.
+Proof.
+  intros c st m D. unfold decode_tree. destruct (in_block_damage_is_err c m D st) as (e & ->).
+  reflexivity.
+Qed.
+
+(* C06, second sentence, for the in-block classes, with nothing assumed about the block decoder:
+   [good] intact frames; [bad] a completely available, correctly framed OSMData frame whose payload
+   is a message tree [m] with one of the enumerated in-block damages, decoded by a worker in any
+   state [st]; [rest] anything *)
+Theorem in_block_damage_detected :
+  forall c (good : list (frame L1.obj)) bad rest avail b st m,
+  valid_file good = true ->
+  block_read bad (avail - total_size good) = Some (TyData, b) ->
+  enc_ok (b_enc b) = true -> b_pay b = PData (decode_tree c st m) ->
+  in_block_damage c m ->
+  scan current (good ++ bad :: rest) avail = Result (spec_deliveries good) Failed.
+Proof.
+  intros c good bad rest avail b st m Hv Hr He Hp D.
+  apply damage_detected; [exact Hv|]. unfold damaged. apply existsb_exists.
+  exists DmgInBlock. split; [unfold all_damages; cbn; tauto|].
+  cbn [has_damage]. rewrite Hr, He, Hp, (decode_tree_damaged c st m D). reflexivity.
 Qed.
